@@ -324,13 +324,17 @@ func checkC06(c *mc.Ctx) {
 					idx = append(idx, i)
 				}
 			}
-			for s := 0; s+15 <= len(idx); s++ {
-				var b []fault
-				for k := 0; k < 15; k++ {
-					b = append(b, fault{'x', idx[s+k]})
+			for l := 4; l <= 15; l++ { // bursts of every length 4..15 (1..3 are enumerated above), every start
+				for s := 0; s+l <= len(idx); s++ {
+					var b []fault
+					for k := 0; k < l; k++ {
+						b = append(b, fault{'x', idx[s+k]})
+					}
+					sets = append(sets, b)
+					if l == 15 {
+						c.Ev.Class("burst-of-15", 1)
+					}
 				}
-				sets = append(sets, b)
-				c.Ev.Class("burst-of-15", 1)
 			}
 		}
 		if !long || c.Thorough() {
@@ -364,7 +368,7 @@ func checkC06(c *mc.Ctx) {
 			}
 		})
 		c.Ev.AddScenario(mc.Scenario{Name: "faulted-" + st.Name, SpaceSize: total, Executed: done, Exhaustive: done == total,
-			Bound: fmt.Sprintf("%d packets: every single duplicate, double duplicate, deletion, burst of 2..3 (and 15 on one PID), every pair of faults", n)})
+			Bound: fmt.Sprintf("%d packets: every single duplicate, double duplicate, deletion, burst of 2..3 (and every burst of 4..15 packets of one PID), every pair of faults", n)})
 	}
 	c06Sequences(c)
 	c.Ev.Require("duplicate-inserted", "packet-deleted", "burst-of-15", "seq-unit-delivered", "seq-duplicate-skipped", "seq-gap")
